@@ -106,7 +106,10 @@ type simIndex struct {
 func (x *simIndex) SearchInContext(ctx context.Context, req *bleve.SearchRequest) (*bleve.SearchResult, error) {
 	x.s.Yield("shard-request-arrives")
 	if x.delay > 0 {
+		// delays are distinct per shard (see below) so that no two members wake at the same simulated instant,
+		// and the member parks again right after waking: woken tasks never run real code side by side
 		time.Sleep(x.delay)
+		x.s.Yield("shard-delay-over")
 	}
 	res, err := x.bIndex.SearchInContext(ctx, req)
 	x.s.Yield("shard-response-leaves")
@@ -250,7 +253,11 @@ func aliasScenario(c *core.Ctx) {
 			if i < len(cfg.Delays) {
 				d = cfg.Delays[i]
 			}
-			wrapped[i] = &simIndex{bIndex: sh, delay: time.Duration(d) * time.Millisecond, s: s}
+			dd := time.Duration(d) * time.Millisecond
+			if dd > 0 {
+				dd += time.Duration(i+1) * time.Microsecond
+			}
+			wrapped[i] = &simIndex{bIndex: sh, delay: dd, s: s}
 		}
 		if len(cfg.Tree) > 0 {
 			var inner []bleve.Index
